@@ -66,6 +66,9 @@ class CompressedFileHandler(FileHandler):
                 self.entry.realencoding = self.entry.encoding
                 self.entry.encoding = None
                 self.entry.type = self.entry.guesstype()
+                # The client receives the decompressed data, whose length is
+                # not the size of the file on disk.
+                self.entry.size = None
         return self.entry
 
     def initdecompressors(self) -> None:
